@@ -37,19 +37,23 @@ def lib_flags():
     """Which of the proposed repairs the library under test carries, read off its source (so that the same model
     follows the code before and after a repair lands): rename check (C07-3), remove_link refuses a peering link
     (C07-4), _disconnect_from_services skips removed interfaces (C07-5), connect_interface checks the derived
-    names (C07-6)."""
+    names (C07-6), add_component_sliver validates the new ids first (C09-6), connect_interface removes the port when
+    the link cannot be made (C09-7)."""
     if 'f' not in _FLAGS:
         import inspect
         from fim.user.model_element import ModelElement
         from fim.user.node import Node
         from fim.user.topology import Topology
         from fim.user.network_service import NetworkService
+        from fim.graph.abc_property_graph import ABCPropertyGraph
         src = inspect.getsource
         _FLAGS['f'] = {
             'rename_check': hasattr(ModelElement, '_check_name_unique') and '_check_name_unique' in src(Node.set_property),
             'link_refuse': 'ServicePort' in src(Topology.remove_link),
             'skip_gone': 'node_exists' in src(Topology._disconnect_from_services),
             'connect_names': 'check_node_unique' in src(NetworkService.connect_interface),
+            'comp_precheck': 'pairwise distinct' in src(ABCPropertyGraph.add_component_sliver),
+            'connect_undo': 'remove_cp_and_links' in src(NetworkService.connect_interface),
         }
     return _FLAGS['f']
 
@@ -215,8 +219,8 @@ class Histories(Stream):
         body = '[' + ';\n     '.join(steps) + ']'
         tb = '[' + '; '.join(cstr(x).replace('%N', '') for x in tbl) + ']'
         fl = lib_flags()
-        flags = 'mkFlags %s %s %s %s' % (cbool(fl['rename_check']), cbool(fl['link_refuse']), cbool(fl['skip_gone']),
-                                         cbool(fl['connect_names']))
+        flags = 'mkFlags %s %s %s %s %s %s' % (cbool(fl['rename_check']), cbool(fl['link_refuse']), cbool(fl['skip_gone']),
+                                               cbool(fl['connect_names']), cbool(fl['comp_precheck']), cbool(fl['connect_undo']))
         return '((%s, %s), %s,\n   fun s => %s)' % (cbool(case['flavour'] == 'sub'), flags, tb, body)
 
     # ---------------------------------------------------------------------------- independent oracle
@@ -318,7 +322,7 @@ class C07(Check):
         'Coq 8.16.1 kernel (coqc), vm_compute for the correspondence evaluation; no native_compute',
         'translator/gen_rules.py + translator/pyast.py (rules JSON, enum classes, component catalogue, NAME_REGEX, ViewOnlyDict -> Gen/Rules.v), fail-closed',
         'harness/c07.py, topo7_driver.py, topo7_gen.py, topo7_oracle.py + harness/common.py (history generation, fresh-handle resolution through the views, snapshot of storage.extract_graph, string table, cases.v writer)',
-        'four behaviour flags read off the source of the library under test (lib_flags: proposed repairs C07-3..6 present or not)',
+        'six behaviour flags read off the source of the library under test (lib_flags: repairs C07-3..6, C09-6, C09-7 present or not)',
         'modelled not verified: networkx Graph (one undirected edge per pair, remove_node drops incident edges), networkx_query search_nodes as a filter, nx.shortest_path as BFS distance, dict insertion/overwrite, uuid4 (replaced by a deterministic source in the harness process), re.fullmatch of the NAME_REGEX character classes on ASCII names',
     ]
     assumptions = [
